@@ -3,6 +3,7 @@ From BBF Require Import Base.Prelude Base.Names Base.Bits Spec.Sem
      Model.Expr Model.Table Model.LibBdd Model.Bdd
      Proofs.ExprProofs Proofs.TableProofs Proofs.QuantProofs Proofs.NfProofs Proofs.DdProofs Proofs.BddProofs Proofs.BddOps
      Proofs.ConvProofs Proofs.RenderProofs Proofs.EnumProofs.
+From BBF Require Import Model.Lexer Model.Parser Model.Display Model.Render Model.Csv Model.Prog Proofs.ProgProofs Proofs.ConvChain Proofs.OpsObjects.
 Theorem C08_expr_sem : forall e m v, sem v (e_substitute e m) = sem (subst_env_e m v) e.
 Proof. exact sem_substitute. Qed.
 Print Assumptions C08_expr_sem.
@@ -47,3 +48,11 @@ Example C08_example :
   let c := tabulate [[99%N]] (fun rho => evaluate (Lit [99%N]) rho) in
   t_substitute ab [([97%N], c)] = {| t_inputs := [[98%N]; [99%N]]; t_outputs := [false; false; false; true] |}.
 Proof. reflexivity. Qed.
+
+(* ---- objects of any representation: whenever the substitution returns, it is the simultaneous composition ---- *)
+Theorem C08_objects : forall o (m : list (name * obj)) o', owf o -> (forall k g, In (k, g) m -> owf g) ->
+  exec_subst o m = Ok o' ->
+  owf o' /\
+  forall v, osem o' v = osem o (fun k => match get m k with Some g => osem g v | None => v k end).
+Proof. exact obj_subst_spec. Qed.
+Print Assumptions C08_objects.
